@@ -825,9 +825,21 @@ func ruleR03_17(w *World, r *Report) {
 		return
 	}
 	var lookups []*ssa.Call
-	for _, c := range callsNamed(fn, "getAsJSONType", "getJSONType") {
-		if call, ok := c.(*ssa.Call); ok && call.Parent() == fn {
+	for _, c := range ownCallsIn(fn) {
+		call, ok := c.(*ssa.Call)
+		if !ok {
+			continue
+		}
+		n := calleeName(call)
+		if n == "getAsJSONType" || n == "getJSONType" {
 			lookups = append(lookups, call)
+			continue
+		}
+		// a new helper that does the lookup and hands the member back
+		if h := call.Call.StaticCallee(); h != nil && flattenable[h] && len(callsNamed(h, "getAsJSONType", "getJSONType")) > 0 {
+			if rs := h.Signature.Results(); rs.Len() >= 1 && strings.HasSuffix(rs.At(0).Type().String(), "jsonType") {
+				lookups = append(lookups, call)
+			}
 		}
 	}
 	if len(lookups) == 0 {
@@ -841,6 +853,9 @@ func ruleR03_17(w *World, r *Report) {
 		walk = func(x ssa.Value, d int) bool {
 			x = stripIface(x)
 			if x == ssa.Value(l) {
+				return true
+			}
+			if ex, ok := x.(*ssa.Extract); ok && ex.Tuple == ssa.Value(l) && ex.Index == 0 {
 				return true
 			}
 			if seen[x] || d > 8 {
